@@ -1,0 +1,45 @@
+//go:build verif
+
+// Verification hooks (read-only): compiled only with -tags verif.
+
+package obfs4
+
+import (
+	"net"
+
+	"gitlab.com/yawning/obfs4.git/common/ntor"
+	"gitlab.com/yawning/obfs4.git/transports/obfs4/framing"
+)
+
+// VerifClientArgs exposes the parsed client arguments (the value ParseArgs returned):
+// bridge identity and the client's ntor session key pair. With the server's response
+// (public data on the wire) the harness can redo ntor.ClientHandshake + ntor.Kdf through
+// the exported ntor API and so obtain the link keys of a real connection.
+func VerifClientArgs(args any) (nodeID *ntor.NodeID, identity *ntor.PublicKey, session *ntor.Keypair, iatMode int, ok bool) {
+	ca, ok := args.(*obfs4ClientArgs)
+	if !ok {
+		return nil, nil, nil, 0, false
+	}
+	return ca.nodeID, ca.publicKey, ca.sessionKey, ca.iatMode, true
+}
+
+// VerifConnCrypto returns the frame encoder/decoder of an established obfs4 connection
+// (for their read-only VerifState accessors).
+func VerifConnCrypto(c net.Conn) (*framing.Encoder, *framing.Decoder, bool) {
+	oc, ok := c.(*obfs4Conn)
+	if !ok {
+		return nil, nil, false
+	}
+	return oc.encoder, oc.decoder, true
+}
+
+// VerifBufferSizes returns the number of buffered bytes: ciphertext received but not yet
+// decoded (receiveBuffer) and decoded payload not yet handed to Read (receiveDecodedBuffer).
+// Only meaningful while no Read is running or the Read is blocked on the network.
+func VerifBufferSizes(c net.Conn) (receiveBuffer, receiveDecoded int, ok bool) {
+	oc, ok := c.(*obfs4Conn)
+	if !ok {
+		return 0, 0, false
+	}
+	return oc.receiveBuffer.Len(), oc.receiveDecodedBuffer.Len(), true
+}
